@@ -277,9 +277,15 @@ def _real(p):
     tmp = tempfile.mkdtemp(prefix="c03_real_")
     validated = 0
     try:
+        t_start = time.time()
         for choices, orders in runs:
             tag = "sched=" + ("".join(map(str, choices)) or "-")
             ok_order = False
+            if time.time() - t_start > 90.0:
+                # only reachable when replays need their slow retries (never on a tree where orders reproduce)
+                o.stat("caps_hit", 1)
+                o.note("real_pool_replay_time_cap_hit_after", validated)
+                break
             for attempt, unit in enumerate((UNIT, UNIT * 3, UNIT * 8)):
                 log = os.path.join(tmp, "log_%s_%d" % (tag, attempt))
                 delays = {}
@@ -322,6 +328,8 @@ def _real(p):
                 if observed == [list(x) for x in orders]:
                     ok_order = True
                     break
+                if any(sorted(ob) != sorted(od) for ob, od in zip(observed, orders)) or len(observed) != len(orders):
+                    break       # not a timing matter: the tasks that ran are not the tasks of the model
             if ok_order:
                 validated += 1
             else:
